@@ -14,6 +14,14 @@ import time
 
 import z3
 
+class _NotHandled:
+    def __repr__(self):
+        return "NOT_HANDLED"
+
+
+NOT_HANDLED = _NotHandled()
+
+
 # ----------------------------------------------------------------------------------------------------------------------
 # path context
 # ----------------------------------------------------------------------------------------------------------------------
@@ -55,6 +63,7 @@ class Ctx:
         self.fresh_id = 0
         self.inputs = {}
         self.signed_inputs = set()
+        self.model = None
 
     def _check(self, *assumptions):
         t = time.time()
@@ -72,11 +81,31 @@ class Ctx:
         if cond is False:
             raise PathAbort()
         self.solver.add(cond)
+        if self.model is not None and self._eval(cond) is True:
+            return
         if not self._check():
             raise PathAbort()
+        self.model = self.solver.model()
+
+    def add_c(self, *cs):
+        """add constraints directly (not through decide/assume): the cached witness may no longer satisfy the path"""
+        self.solver.add(*cs)
+        self.model = None
+
+    def _eval(self, cond):
+        try:
+            v = self.model.eval(cond, model_completion=True)
+        except z3.Z3Exception:
+            return None
+        if z3.is_true(v):
+            return True
+        if z3.is_false(v):
+            return False
+        return None
 
     def decide(self, cond) -> bool:
-        """cond: z3 BoolRef. Returns the branch taken on this path."""
+        """cond: z3 BoolRef. Returns the branch taken on this path. A cached model of the path condition serves as
+        the feasibility witness of the side it satisfies, so only the other side needs a solver query."""
         cond = z3.simplify(cond)
         if z3.is_true(cond):
             return True
@@ -87,9 +116,30 @@ class Ctx:
             d = self.prefix[i]
             self.log.append(d)
             self.solver.add(cond if d else z3.Not(cond))
+            if self.model is not None and self._eval(cond) is not d:
+                self.model = None
             return d
-        can_t = self._check(cond)
-        can_f = self._check(z3.Not(cond))
+        known = self._eval(cond) if self.model is not None else None
+        other_model = None
+        if known is None:
+            can_t = self._check(cond)
+            if can_t:
+                mt = self.solver.model()
+            can_f = self._check(z3.Not(cond))
+            if can_f:
+                mf = self.solver.model()
+        elif known:
+            can_t = True
+            mt = self.model
+            can_f = self._check(z3.Not(cond))
+            if can_f:
+                mf = self.solver.model()
+        else:
+            can_f = True
+            mf = self.model
+            can_t = self._check(cond)
+            if can_t:
+                mt = self.solver.model()
         if can_t and can_f:
             self.pending.append(self.log + [False])
             d = True
@@ -99,6 +149,7 @@ class Ctx:
             d = False
         else:
             raise PathAbort()
+        self.model = mt if d else mf
         self.log.append(d)
         self.solver.add(cond if d else z3.Not(cond))
         return d
@@ -132,6 +183,7 @@ class Ctx:
             r = deep_eq(v, c)
             if r is not True:
                 self.solver.add(tobool_expr(r))
+        self.model = m
         return out[0] if len(out) == 1 else out
 
 
@@ -223,7 +275,14 @@ def is_sym(v):
     return isinstance(v, (SymInt, SymBool, SymBytes, SymStr))
 
 
+CONCRETE_HOOKS = []  # f(v) -> NOT_HANDLED | bool  (model objects that carry symbolic state)
+
+
 def deep_concrete(v, depth=0):
+    for h in CONCRETE_HOOKS:
+        r = h(v)
+        if r is not NOT_HANDLED:
+            return r
     if is_sym(v):
         return v.is_concrete() if isinstance(v, (SymBytes, SymStr)) else False
     if depth > 6:
@@ -488,7 +547,7 @@ def sym_int(name, lo, hi):
     w = SymInt.width_for(lo, hi)
     e = z3.BitVec(name, w)
     ctx = Ctx.cur
-    ctx.solver.add(e >= lo, e <= hi)
+    ctx.add_c(e >= lo, e <= hi)
     ctx.inputs[name] = e
     ctx.signed_inputs.add(name)
     return SymInt(e, lo, hi)
@@ -760,7 +819,7 @@ def sym_str(name, n, maxcp=0x10FFFF):
     cells = []
     for i in range(n):
         e = z3.BitVec("%s[%d]" % (name, i), 21)
-        ctx.solver.add(z3.ULE(e, maxcp))
+        ctx.add_c(z3.ULE(e, maxcp))
         ctx.inputs["%s[%d]" % (name, i)] = e
         cells.append(e)
     return SymStr(cells)
@@ -1222,12 +1281,7 @@ ISINSTANCE_HOOKS = []  # f(v, types_tuple) -> NOT_HANDLED | bool
 TRUTH_HOOKS = []  # f(v) -> NOT_HANDLED | bool
 
 
-class _NotHandled:
-    def __repr__(self):
-        return "NOT_HANDLED"
 
-
-NOT_HANDLED = _NotHandled()
 
 
 def compare(op, a, b):
